@@ -94,7 +94,13 @@ pub fn check(id: &str, tier: Tier) -> Result<Report, String> {
             let mut scripts = families::err_family(lvl);
             scripts.extend(stream_map(tier));
             let res = run_e1("C02", &scripts, &cfg, &|s| monitor_for("C02", s).unwrap(), &["O"]);
-            e1_report("C02", "outcome contract per ret_code class evaluated on every distinct run; non-trivial = runs with a non-zero code", &res, &cfg, BOUNDS)
+            let mut rep = e1_report("C02", "outcome contract per ret_code class evaluated on every distinct run of the honest histories, and on every mutant of the adversarial catalogue (tampered, re-signed and malformed current data: preparation errors, uncatchable errors, code 30000); non-trivial = runs with a non-zero code", &res, &cfg, BOUNDS);
+            // the failed-run half of the statement on tampered data: every mutant of the C14 catalogue (singles)
+            let adv = crate::adv::sweep(tier, false);
+            rep.cov("adversarial_mutants_executed", json!(adv.stats.executed));
+            rep.cov("adversarial_ret_codes", json!(adv.stats.codes.iter().map(|(k, v)| (k.to_string(), *v)).collect::<std::collections::BTreeMap<_, _>>()));
+            rep.violations.extend(crate::adv::uniq(adv.c02));
+            rep
         }
         "C03" => {
             let scripts = stream_map_err(tier);
@@ -178,7 +184,12 @@ pub fn check(id: &str, tier: Tier) -> Result<Report, String> {
             e1_report("C06", "request ids against a ghost maximum per peer; argument values of downstream calls against RefEval (routing); one result under a non-pending id per path (0, max+1, max+7, consumed id, 2^32-1); non-trivial = states with >= 2 pending requests on one peer plus bogus-id runs", &res, &cfg, BOUNDS)
         }
         "C19" => {
-            let mut scripts = seq_scripts(tier);
+            // failures caught by an xor after the particle was already routed somewhere (ERR family; first,
+            // because its graphs are small: a time budget must cut the large graphs, not these)
+            // (not the scripts built around an uncatchable error: a run that fails that way keeps the peer's own
+            // pending request in its data for good, which is C02's behaviour, not a forwarding defect)
+            let mut scripts: Vec<Script> = families::err_family(if tier == Tier::Quick { 0 } else { 1 }).into_iter().filter(|s| !s.name.contains("uncatchable")).collect();
+            scripts.extend(seq_scripts(tier));
             scripts.extend(stream_map(tier));
             let res = run_e1("C19", &scripts, &cfg, &|s| monitor_for("C19", s).unwrap(), &["O"]);
             e1_report("C19", "per run: requests only for calls addressed to the peer, new results attributed to the peer, next peers without self/duplicates, newly sent entries imply next peers; per quiescent state: all peers' data merged at an observer hold no sent-but-unexecuted entry; non-trivial = runs that newly mark >= 2 entries as sent", &res, &cfg, BOUNDS)
